@@ -373,7 +373,24 @@ func GenFleet(prof *fleetProfile) func(r *engine.PRNG, run int, tier string) *en
 			}
 		}
 		if prof.intruder && r.Pct(60) {
-			g.mkNode(prof.roles[r.Intn(len(prof.roles))], prof.stores[r.Intn(len(prof.stores))], nil)
+			if shared != nil && r.Pct(45) {
+				// same kind and base, another index offset (sometimes exactly 0): only the offset gates it
+				o := *shared
+				pb := g.nodes[0].m.ToProto()
+				o.ByGam, o.Gamma = true, engine.F64(pb.Gamma)
+				switch r.Pick(4, 3, 3) {
+				case 0:
+					o.Offset = 0
+				case 1:
+					o.Offset = engine.F64(pb.IndexOffset + float64(r.Range(1, 50)))
+				default:
+					o.Offset = engine.F64(float64(r.Range(-2000, 2000)))
+				}
+				g.mkNode(prof.roles[r.Intn(len(prof.roles))], prof.stores[r.Intn(len(prof.stores))], &o)
+				// the fleet itself is sometimes built from base and offset too, so that both sides are
+			} else {
+				g.mkNode(prof.roles[r.Intn(len(prof.roles))], prof.stores[r.Intn(len(prof.stores))], nil)
+			}
 		}
 		g.opNames = []string{"add", "addw", "merge", "copy", "clear", "reweight", "send", "query", "burst", "chmap"}
 		g.weightsTab = make([]int, len(g.opNames))
